@@ -431,14 +431,13 @@ class HetBlock(Block):
             inputs -= hetinputs.outputs
             internals |= hetinputs.outputs
 
-        self.inputs = inputs
-        self.outputs = outputs
+        # keep any renaming applied by remap()
+        self.inputs = self.M @ inputs
+        self.outputs = self.M @ outputs
         self.internals = internals
 
         self.hetinputs = hetinputs
         self.hetoutputs = hetoutputs
-
-        # TODO: fix consequences with a self.M @ if there is remap!
 
         return self
 
